@@ -29,9 +29,11 @@ fn make_spec(line: &Value, r: &mut rand::rngs::StdRng) -> Spec {
     vals.insert("c3", r3(r.gen_range(0.3..0.9)));
     vals.insert("c4", if r.gen_bool(0.1) { 0.0 } else { r3(r.gen_range(0.05..0.3)) });
     let needs_a2 = line["needs_a2"].as_bool().unwrap();
-    let ma2 = if !needs_a2 && r.gen_bool(0.2) { 0.0 } else { let v = r3(r.gen_range(0.02..0.25)); if r.gen_bool(0.5) { v } else { -v } };
+    // (offsets of a few millimetres next to links of most of a metre occur as well: three in ten are 1 .. 20 mm)
+    let small = |r: &mut rand::rngs::StdRng, lo: f64, hi: f64| if r.gen_bool(0.3) { r3(10f64.powf(r.gen_range(-3.0..-1.7))).max(0.001) } else { r3(r.gen_range(lo..hi)) };
+    let ma2 = if !needs_a2 && r.gen_bool(0.2) { 0.0 } else { let v = small(r, 0.02, 0.25); if r.gen_bool(0.5) { v } else { -v } };
     vals.insert("-a2", ma2);
-    vals.insert("b", { let v = r3(r.gen_range(0.02..0.2)); if r.gen_bool(0.5) { v } else { -v } });
+    vals.insert("b", { let v = small(r, 0.02, 0.2); if r.gen_bool(0.5) { v } else { -v } });
     let signs: [i8; 6] = std::array::from_fn(|_| if r.gen_bool(0.5) { 1 } else { -1 });
     let mut from = [0.0; 6];
     let mut to = [0.0; 6];
